@@ -51,6 +51,7 @@ const (
 	kOtherCipher = "foreign-license"   // same contract/signature/master but encrypted under another license's key
 	kOtherBoth   = "foreign-license2"  // another license altogether (other key, other contract)
 	kBanned      = "banned"            // minted, then banned in the cluster state
+	kBannedAlias = "banned-respelled"  // banned, then presented in the standard base64 alphabet ('+' for '-')
 	kGarbage     = "garbage:"          // + name of an undecryptable string
 )
 
@@ -140,8 +141,8 @@ func refKeyClause(k keySpec, op string) string {
 	if k.Expiry == "past" {
 		return clExpiry
 	}
-	if k.Kind == kBanned {
-		return clBan
+	if k.Kind == kBanned || k.Kind == kBannedAlias {
+		return clBan // the respelled string is either not a key at all or the banned key: refused either way
 	}
 	if k.Mask&opBit[op] == 0 {
 		return clPermission
